@@ -375,6 +375,12 @@ fn dump(st: &St) -> String {
                 "/m={}",
                 if items.is_empty() { "-".to_string() } else { items.join(";") }
             ));
+            // first_child / last_child in the merged-text view (must be the ends of the merged child list)
+            raw[i].push_str(&format!(
+                "/mf={}:{}",
+                hopt(st, *d, n.first_child()),
+                hopt(st, *d, n.last_child())
+            ));
         }
     }
     st.set_view(false);
